@@ -78,7 +78,11 @@ func runMutant(m Mutant, scratch string, workers int) mutantResult {
 	var all []*Obligation
 	for _, u := range units {
 		u.Ctx.prepare()
-		all = append(all, u.Obls...)
+		for _, o := range u.Obls {
+			if servesProperty(o, m.Property) {
+				all = append(all, o)
+			}
+		}
 		if len(u.Errors) > 0 {
 			res.Failed = append(res.Failed, u.Name+"/contract-error")
 		}
